@@ -236,24 +236,28 @@ func (d *Driver) GenVC(key string, safety bool, lockCheck bool) (fvc *FuncVC) {
 	vc.assume("(>= " + ex.get(st, "alloc") + " 0)")
 	args := []*Val{}
 	syms := [][2]string{}
+	deref := true
 	mkParam := func(name string, t types.Type) *Val {
 		s := d.w.SortOf(t)
 		v := &Val{T: vc.fresh("p_"+name, s), S: s, GoT: t}
 		if s.K == KRef {
 			vc.assume("(and (>= " + v.T + " 0) (<= " + v.T + " " + ex.get(st, "alloc") + "))")
 			// safety mode: pointer parameters are non-nil at entry; callers are checked (nil-arg obligations)
-			if safety && s.Name != "" && s.Name != "cell" && s.Name != "map" && s.Name != "chan" && s.Name != "func" {
+			if safety && deref && s.Name != "" && s.Name != "cell" && s.Name != "map" && s.Name != "chan" && s.Name != "func" {
 				vc.assume("(> " + v.T + " 0)")
 			}
 		}
 		if s.K == KAny {
 			vc.assume("(anyWF " + v.T + ")")
 			// safety mode: interface parameters (other than error / empty interface) are non-nil at entry
-			if safety && t.String() != "error" && t.String() != "interface{}" && t.String() != "any" {
-				vc.assume(not(eq(v.T, "anyNil")))
+			if safety && deref {
+				vc.assume(ex.nnAny(v.T, t))
+			}
+			if safety && ex.strongIface(t) {
+				vc.assume(wfIface(v.T))
 			}
 		}
-		if safety && s.K == KRef && (s.Name == "func" || s.Name == "cell") {
+		if safety && s.K == KRef && (s.Name == "func" && deref || s.Name == "cell") {
 			vc.assume("(> " + v.T + " 0)")
 		}
 		if s.K == KString || s.K == KInt || s.K == KBool {
@@ -261,9 +265,11 @@ func (d *Driver) GenVC(key string, safety bool, lockCheck bool) (fvc *FuncVC) {
 		}
 		return v
 	}
-	for _, p := range fn.Params {
+	for k, p := range fn.Params {
+		deref = derefsParam(fn, k)
 		args = append(args, mkParam(p.Name(), p.Type()))
 	}
+	deref = true
 	// scalar fields of pointer parameters at entry are model inputs too (for replay)
 	for i, p := range fn.Params {
 		if args[i].S.K == KRef {
@@ -287,13 +293,13 @@ func (d *Driver) GenVC(key string, safety bool, lockCheck bool) (fvc *FuncVC) {
 		binds = append(binds, b)
 		if safety {
 			// captured variables: the cell exists and a captured pointer / interface is non-nil
-			if pt, ok := fv.Type().Underlying().(*types.Pointer); ok {
+			if pt, ok := fv.Type().Underlying().(*types.Pointer); ok && capturedNonNil(ex, pt.Elem()) {
 				es := d.w.SortOf(pt.Elem())
 				cell := "(select " + ex.get(st, ex.cellVar(es)) + " " + b.T + ")"
 				if es.K == KRef {
 					vc.assume("(> " + cell + " 0)")
 				} else if es.K == KAny {
-					vc.assume(not(eq(cell, "anyNil")))
+					vc.assume(ex.nnAny(cell, pt.Elem()))
 				}
 			}
 		}
@@ -316,6 +322,9 @@ func (d *Driver) GenVC(key string, safety bool, lockCheck bool) (fvc *FuncVC) {
 	}
 	if c != nil {
 		for _, rq := range c.Requires {
+			if rq.SafetyOnly && !ex.safety {
+				continue
+			}
 			vc.assume(ex.trBool(rq.Expr, env))
 		}
 		for _, rq := range c.Assumed {
@@ -354,8 +363,15 @@ func (d *Driver) GenVC(key string, safety bool, lockCheck bool) (fvc *FuncVC) {
 		if label == "" {
 			label = fmt.Sprint(k)
 		}
+		if en.SafetyOnly && !ex.safety {
+			continue
+		}
 		g := ex.trBool(en.Expr, env2)
-		vc.oblige("post", ex.oblName(key+"/post:"+label), retReach, g, en.Src, ex.posOf(fn.Pos()), syms)
+		kind := "post"
+		if en.SafetyOnly {
+			kind = "spost"
+		}
+		vc.oblige(kind, ex.oblName(key+"/"+kind+":"+label), retReach, g, en.Src, ex.posOf(fn.Pos()), syms)
 	}
 	// frame
 	if c.HasMod {
